@@ -558,8 +558,9 @@ func runC07Proc(c *fw.Case) {
 	// flags that change what the command does after the work (statistics instead of / in addition to the result)
 	printStats := (cmdKind == 0 || cmdKind == 1 || cmdKind == 4) && c.Bool("proc.printstats")
 	useCache := (cmdKind == 0 || cmdKind == 1 || cmdKind == 5) && c.Chance(1, 3, "proc.cache")
+	gnuTarOut := cmdKind == 5 && c.ChanceAdded(1, 3, "proc.gnutar") // untar into a tar file instead of a directory
 	c.Note("real `desync %s` sig=%v n=%s chunks=%d print-stats=%v cache=%v", names[cmdKind], sig, n, len(idx.Chunks), printStats, useCache)
-	c.Class(fmt.Sprintf("proc %s sig=%v n=%s stats=%v cache=%v", names[cmdKind], sig, n, printStats, useCache))
+	c.Class(fmt.Sprintf("proc %s sig=%v n=%s stats=%v cache=%v gnutar=%v", names[cmdKind], sig, n, printStats, useCache, gnuTarOut))
 	var holdKind string
 	var args func(g *gateServer) []string
 	switch cmdKind {
@@ -602,10 +603,14 @@ func runC07Proc(c *fw.Case) {
 	case 5:
 		holdKind = "GET"
 		args = func(g *gateServer) []string {
+			a := []string{"untar", "-i", "-n", n, "-s", g.url()}
 			if useCache {
-				return []string{"untar", "-i", "-n", n, "-s", g.url(), "-c", cacheDir, indexFile, out}
+				a = append(a, "-c", cacheDir)
 			}
-			return []string{"untar", "-i", "-n", n, "-s", g.url(), indexFile, out}
+			if gnuTarOut {
+				a = append(a, "--output-format", "gnu-tar")
+			}
+			return append(a, indexFile, out)
 		}
 	}
 	reset := func() {
@@ -615,7 +620,7 @@ func runC07Proc(c *fw.Case) {
 		if prior != nil {
 			os.WriteFile(out, prior, 0644)
 		}
-		if cmdKind == 5 {
+		if cmdKind == 5 && !gnuTarOut {
 			os.MkdirAll(out, 0755)
 		}
 		os.WriteFile(blobFile, blob, 0644)
@@ -674,6 +679,28 @@ func runC07Proc(c *fw.Case) {
 				}
 			}
 		case 5:
+			if gnuTarOut {
+				// complete = a well-formed archive that lists every entry, files with their content (what GNU tar
+				// output cannot carry, and its known mode/type defects, are C05's business)
+				b, err := os.ReadFile(out)
+				if err != nil {
+					return err.Error()
+				}
+				gt, perr := parseGnuTar(b)
+				if perr != nil {
+					return perr.Error()
+				}
+				for p, e := range wantTree {
+					g := gt[p]
+					if g == nil {
+						return fmt.Sprintf("%q is missing from the tar output", p)
+					}
+					if e.Type == "file" && !bytes.Equal(g.Content, e.Content) {
+						return fmt.Sprintf("%q has other content in the tar output", p)
+					}
+				}
+				return ""
+			}
 			got, err := snapshot(out)
 			if err != nil {
 				return err.Error()
@@ -696,6 +723,10 @@ func runC07Proc(c *fw.Case) {
 	g.close()
 	if err != nil {
 		c.HarnessError("%v", err)
+		return
+	}
+	if gnuTarOut && res.exit != 0 {
+		c.Outcome("gnu-tar-refused") // xattrs, long names: GNU tar cannot represent everything
 		return
 	}
 	if res.exit != 0 || why != "" {
